@@ -16,6 +16,7 @@
 from __future__ import annotations
 
 import ast
+from typing import Any
 from fractions import Fraction
 
 from ..engine.normalize import inline_helpers, positional
@@ -187,6 +188,22 @@ def _subst_zero(p: Poly, atom: str) -> Poly:
     return Poly(out)
 
 
+def _timer_loops(node: ast.AST) -> list[Any]:
+    """The per-tick loop: `async for ... in self._timer`, or `while True:` whose first statement awaits
+    `self._timer.receive()` (the same loop written by hand; one tick per iteration either way)."""
+    out: list[Any] = []
+    for s in body_walk(node):
+        if isinstance(s, (ast.AsyncFor, ast.For)) and u(s.iter) == "self._timer":
+            out.append(s)
+        elif isinstance(s, ast.While) and isinstance(s.test, ast.Constant) and s.test.value is True and s.body:
+            first = s.body[0]
+            val = getattr(first, "value", None)
+            if isinstance(first, (ast.Assign, ast.AnnAssign, ast.Expr)) and isinstance(val, ast.Await) \
+                    and u(val.value) == "self._timer.receive()":
+                out.append(s)
+    return out
+
+
 def check_step(run: Run, prog: Program) -> None:
     cls = prog.cls(RES)
     fn = prog.func(f"{RES}.resample")
@@ -211,7 +228,7 @@ def check_step(run: Run, prog: Program) -> None:
     run.check(not extra and "__init__" in writers, "C07.STEP", cls.qual, "writers of _window_end: constructor and the per-tick advance",
               f"self._window_end is written somewhere else than the constructor and the per-tick advance ({extra})",
               node=cls.node, file=cls.module.rel)
-    loops = [s for s in body_walk(node) if isinstance(s, (ast.AsyncFor, ast.For)) and u(s.iter) == "self._timer"]
+    loops = _timer_loops(node)
     if len(loops) != 1:
         raise AnalysisError(f"{fn.qual}: timer loop not found")
     te = TermEval()
@@ -347,7 +364,7 @@ def _gather_ok(g: ast.Call) -> bool:
 def check_same(run: Run, prog: Program) -> None:
     fn = prog.func(f"{RES}.resample")
     node = inline_helpers(prog, fn)
-    loops = [s for s in body_walk(node) if isinstance(s, (ast.AsyncFor, ast.For)) and u(s.iter) == "self._timer"]
+    loops = _timer_loops(node)
     if len(loops) != 1:
         raise AnalysisError(f"{fn.qual}: timer loop not found")
     n = 0
